@@ -341,7 +341,8 @@ structure SelIn where
   seedSub : Str
   /-- `insert_xpaths(self.itemset, self, reference_parent=True).strip()` -/
   prevSub : Str
-  /-- `self.choices and self.choices.requires_itext` -/
+  /-- `(self.choices or survey.choices.get(self.itemset))` exists and `.requires_itext` (question.py 406-412,
+      after commit 2ee52f9: the list is looked up on the survey when the select carries no `choices`) -/
   choicesItext : Bool
 deriving Repr, Inhabited
 
@@ -621,10 +622,6 @@ structure Input where
   survey : List Cells
   extHeader : List Str
   extRows : Option (List Cells)
-  /-- model variant with finding F39 repaired (the select sees the itext flag of its list even when
-      `add_choices_info_to_question` attached no `choices`); used by the check only to recognise a
-      repaired tree, never for the verdict of the oracle -/
-  f39Fixed : Bool := false
 deriving Repr, Inhabited
 
 structure Obs where
@@ -638,6 +635,32 @@ inductive Outcome where
   | error (k : ErrK)
   | unsupported (why : String)
 deriving Repr, Inhabited
+
+/-! ### `clean_text_values` on the choices / external_choices sheets (xls2json.py 88-112 with
+`strip_whitespace=False`): only "smart" quotes are replaced; whitespace inside cells is kept as typed.
+The rows are mutated in place, so `external_choices_to_csv` later writes the cleaned cells. -/
+
+def smartTable : List (Char × Char) :=
+  Pyxv.Gen.smartQuotes.filterMap fun p =>
+    match p.1.toList, p.2.toList with
+    | [a], [b] => some (a, b)
+    | _, _ => none
+
+def cleanChar (c : Char) : Char :=
+  match smartTable.find? (fun p => p.1 = c) with
+  | some p => p.2
+  | none => c
+
+def cleanCell (s : Str) : Str := s.map cleanChar
+def cleanRow (r : Cells) : Cells := r.map fun kv => (kv.1, cleanCell kv.2)
+
+/-- the workbook as `workbook_to_json` leaves it after cleaning the two sheets -/
+def Input.cleaned (inp : Input) : Input :=
+  { inp with choices := inp.choices.map cleanRow, extRows := inp.extRows.map fun rows => rows.map cleanRow }
+
+/-- `dict.fromkeys(k for d in rows for k in d)`: header fallback of `external_choices_to_csv` (utils.py 190-195) -/
+def firstKeys (rows : List Cells) : List Str :=
+  (rows.flatMap fun r => r.map (·.1)).foldl (fun acc k => if acc.contains k then acc else acc ++ [k]) []
 
 def paramsOf (cells : Cells) : Cells :=
   cells.filterMap fun kv => if startsWith kv.1 (c!"parameters::") then some (kv.1.drop 12, kv.2) else none
@@ -662,7 +685,7 @@ def inlineItems (l : Str) (cs : List Choice) (qHasLabel : Bool) : Option (List (
     | i, c :: rest =>
       let lab : Option (Bool × Str) :=
         if itext then some (true, c!"jr:itext('" ++ l ++ c!"-" ++ natToStr i ++ c!"')")
-        else if qHasLabel then (match c.label with | .plain s => some (false, s) | _ => none)
+        else if qHasLabel then (match c.label with | .plain s => some (false, s) | _ => some (false, []))
         else some (false, [])
       match lab, go (i + 1) rest with
       | some x, some r => some ((x, c.name) :: r)
@@ -716,7 +739,7 @@ def selObs (inp : Input) (tbl : List NameInfo) (lists : List (Str × List Choice
     | none => pure []
   let prevSub ← if isPrev then (do let x ← sub ln; pure (strip x)) else pure []
   let q : SelIn := { itemset := ln, filter, params, seedSub, prevSub,
-                     choicesItext := (gets || inp.f39Fixed) && known && requiresItext cs }
+                     choicesItext := known && requiresItext cs }
   return { ref, tag := tagOf sel, itemset := some (itemsetOf q), items := [], query := none, other := otherObs,
            qin := some q, listItext := known && requiresItext cs }
 
@@ -748,7 +771,7 @@ def hasExternalSelect : List Elem → Bool
   | .sel _ _ _ _ sel _ _ :: es => isExternalSel sel || hasExternalSelect es
   | _ :: es => hasExternalSelect es
 
-def run (inp : Input) : Outcome :=
+def runCore (inp : Input) : Outcome :=
   let groups := groupByKey listKey inp.choices
   let allowDup := match inp.allowDup with | some v => yesNoTrue v | none => false
   match validateLists allowDup groups with
@@ -775,5 +798,8 @@ def run (inp : Input) : Outcome :=
         (match inp.extRows with | some rows => some (itemsetsCsv inp.extHeader rows) | none => none)
       else none
     .ok { instances := out, selects := sels, csv }
+
+/-- the observation of a workbook: the two sheets are cleaned first -/
+def run (inp : Input) : Outcome := runCore inp.cleaned
 
 end Pyxv.Choices
